@@ -134,7 +134,16 @@ def extract_raises(ctx, py: PyRepo):
         if p.end[0] == 'return' and p.end[1] != ('const', None):
             v = p.end[1]
             delegated = v[0] == 'call' and v[1] == ('attr', ('param', 'cls'), 'unwrap')
-            checked = any(c[0] == 'call' and c[1] == ('name', 'isinstance') and c[2] == (('param', 'pattern'), ('param', 'cls'))
+            def the_pattern(x):
+                # the parameter itself, or the parameter with the notation at its root expanded by a stripping function
+                if x == ('param', 'pattern'):
+                    return True
+                if x[0] == 'call' and x[1][0] == 'name' and x[2] == (('param', 'pattern'),) and not x[3]:
+                    from .c12 import is_stripper
+                    g = py.modules[ci.module].functions.get(x[1][1])
+                    return g is not None and is_stripper(py, g)
+                return False
+            checked = any(c[0] == 'call' and c[1] == ('name', 'isinstance') and len(c[2]) == 2 and the_pattern(c[2][0]) and c[2][1] == ('param', 'cls')
                           and b is True for c, b in p.conds)
             ok = ok and (delegated or checked)
     ctx.ob('destructuring-raises', 'Pattern.unwrap', ok,
